@@ -82,7 +82,7 @@ CHECKS["C09"] = dict(engine="Gossip", category="model_checking", design_ref="3.4
          "time.Now() reads in one process; the remote branch of routing ends at in-package fake intra-proxy streams.")
 
 # only properties whose check has been validated by the lead on the unchanged tree are claimed
-READY = ["C01", "C02", "C03", "C04", "C05", "C06", "C07", "C08", "C09", "C12", "C13", "C14", "C15", "C16", "C17", "C18", "C19", "C20"]
+READY = ["C01", "C02", "C03", "C04", "C05", "C06", "C07", "C08", "C09", "C10", "C11", "C12", "C13", "C14", "C15", "C16", "C17", "C18", "C19", "C20"]
 
 NOT_YET = "check not built yet (work in progress; see DESIGN.md section 6 for the order of work)"
 NA = {}
